@@ -266,6 +266,10 @@ func (c *connection) Flush() error {
 	}
 
 	if !c.lock(flushing) {
+		if !c.IsActive() {
+			// the lock is not held by another Flush: Close has stopped it for good
+			return Exception(ErrConnClosed, "when flush")
+		}
 		return Exception(ErrConcurrentAccess, "when flush")
 	}
 	defer c.unlock(flushing)
@@ -342,6 +346,9 @@ func (c *connection) Write(p []byte) (n int, err error) {
 	}
 
 	if !c.lock(flushing) {
+		if !c.IsActive() {
+			return 0, Exception(ErrConnClosed, "when write")
+		}
 		return 0, Exception(ErrConcurrentAccess, "when write")
 	}
 	defer c.unlock(flushing)
@@ -540,6 +547,10 @@ func (c *connection) flush() error {
 	bs := c.outputBuffer.GetBytes(c.outputBarrier.bs)
 	n, err := sendmsg(c.fd, bs, c.outputBarrier.ivs, false)
 	if err != nil && err != syscall.EAGAIN {
+		if !c.IsActive() {
+			// closed under us: the errno (EBADF, ...) only says that the descriptor is gone
+			return Exception(ErrConnClosed, "when flush")
+		}
 		return Exception(err, "when flush")
 	}
 	if n > 0 {
@@ -555,6 +566,10 @@ func (c *connection) flush() error {
 	}
 	err = c.operator.Control(PollR2RW)
 	if err != nil {
+		if !c.IsActive() {
+			// closed under us: the descriptor has already been deregistered (ENOENT/EBADF)
+			return Exception(ErrConnClosed, "when flush")
+		}
 		return Exception(err, "when flush")
 	}
 
